@@ -306,6 +306,7 @@ pub fn gen_net(rng: &mut Rng) -> NetPolicy {
     // mostly short refusals; sometimes back-pressure that outlasts the client's re-idle delay
     n.write_pending_ms = *rng.pick(&[1u32, 1, 2, 3, 3, 2, 60, 120, 250]);
     n.eof_delay_ms = *rng.pick(&[0u32, 0, 0, 1, 2, 5, 150]);
+    n.vectored = rng.chance(1, 3);
     n
 }
 
